@@ -184,6 +184,41 @@ HOPS = {
     'mergeduplicates': lambda t, **kw: petl.mergeduplicates(t, 'a', **kw),
     'rowgroupmap': lambda t, **kw: petl.rowgroupmap(t, 'a', _grp, header=['a', 'c', 'n'], **kw),
 }
+def cache_history_right(sym, op, H, cache):
+    """as cache_history, but the edited source is the operator's second input"""
+    left = [list(HDR), [1, 10, 'T0'], [0, 11, 'T1'], [3, 10, 'T2']]
+    store = [['a', 'z'], [1, 'p'], [0, 'q']]
+    src = CountingSource(store)
+    mk = {'lookupjoin': lambda r, **kw: petl.lookupjoin(left, r, key='a', **kw),
+          'leftjoin': lambda r, **kw: petl.leftjoin(left, r, key='a', **kw),
+          'antijoin': lambda r, **kw: petl.antijoin(left, r, key='a', **kw)}[op]
+    edits = [[3, 's'], [1, 'first']]
+    with pickle_stub(), private_tempdir() as td:
+        view = mk(src, cache=cache, tempdir=td)
+        completed, versions, trace, nedits = None, [], [], 0
+        for step in range(H):
+            act = sym.choice('h%d' % step, 2)
+            if act == 1:
+                assume(nedits < 2 and (not trace or trace[-1] != 'edit'))
+                store.append(list(edits[nedits]))
+                store[1] = [edits[nedits][0], 'changed%d' % nedits]
+                nedits += 1
+                trace.append('edit')
+                continue
+            cur = [tuple(r) for r in mk([list(r) for r in store])]
+            versions.append(cur)
+            before = src.pulls
+            got = [tuple(r) for r in view]
+            trace.append('full')
+            if not cache:
+                check(got == cur, op + ': cache=False pass does not reflect the current contents of the second input', trace, got, cur)
+            elif completed is not None:
+                check(got == completed and src.pulls == before, op + ': cache=True pass after a completed one re-read / differs', trace)
+            else:
+                check(any(got == v for v in versions), op + ': cache=True first pass matches no version', trace, got)
+                completed = got
+
+
 EDITS = [[0, 12, 'E0'], [None, 11, 'E1'], [5, 10, 'E2'], [1, 11, 'E3']]     # the first edit brings a new value of 'b'
 
 
@@ -294,4 +329,8 @@ def jobs(tier):
                     continue
                 out.append(dict(name='history/%s/cache=%d/bs=%s/H=%d' % (op, cache, bs, H), func='cache_history',
                                 params=dict(op=op, n0=3, H=H, cache=cache, bs=bs), budget=B))
+    for op in ('lookupjoin', 'leftjoin', 'antijoin'):
+        for cache in (True, False):
+            out.append(dict(name='history-right/%s/cache=%d' % (op, cache), func='cache_history_right',
+                            params=dict(op=op, H=4 if q else 6, cache=cache), budget=B))
     return out
